@@ -26,6 +26,34 @@ type jVal struct {
 	D []jVal   `json:"d"` // dict values
 }
 
+// buildShared is buildVal with ONE object for structurally equal lists / dictionaries (the same list mentioned at several places of a
+// value: 【“前” = 甲，“后” = 甲】): what is generated depends on the value, not on the identity of its parts
+func buildShared(v jVal, memo map[string]r.Element) r.Element {
+	if v.T != "list" && v.T != "dict" {
+		return buildVal(v)
+	}
+	kb, _ := json.Marshal(v)
+	if e, ok := memo[string(kb)]; ok {
+		return e
+	}
+	var out r.Element
+	if v.T == "list" {
+		items := []r.Element{}
+		for _, x := range v.I {
+			items = append(items, buildShared(x, memo))
+		}
+		out = value.NewArray(items)
+	} else {
+		hm := value.NewEmptyHashMap()
+		for i, k := range v.K {
+			hm.AppendKVPair(value.KVPair{Key: k, Value: buildShared(v.D[i], memo)})
+		}
+		out = hm
+	}
+	memo[string(kb)] = out
+	return out
+}
+
 func buildVal(v jVal) r.Element {
 	switch v.T {
 	case "str":
@@ -88,6 +116,8 @@ func handleJSON(raw json.RawMessage) interface{} {
 	switch c.Op {
 	case "gen":
 		o = zn.RunScript(jsonGen, r.ElementMap{"甲": buildVal(c.Val)})
+	case "genshared":
+		o = zn.RunScript(jsonGen, r.ElementMap{"甲": buildShared(c.Val, map[string]r.Element{})})
 	case "parse":
 		o = zn.RunScript(jsonParse, r.ElementMap{"甲": value.NewString(c.Text)})
 	case "parsegen":
